@@ -2,7 +2,7 @@
 From Boltons Require Import Lib.Prelude Lib.C08_Py Spec.C08_Spec Model.C08_Model Check.C08_Check
   Proofs.C08_Machine Proofs.C08_Tree Proofs.C08_Inject Proofs.C08_Cycle Proofs.C08_Paths
   Proofs.C08_Copy Proofs.C08_Shared Proofs.C08_Reraise Proofs.C08_Transfer Proofs.C08_Witness
-  Gen.C08_Src Proofs.C08_Source.
+  Gen.C08_Src Proofs.C08_Source Proofs.C08_Deep.
 
 (* The stack machine (work stack + exit sentinels + id registry + new_items_stack
    + path) IS the bottom-up recursion: for every input term (shared and cyclic
@@ -253,3 +253,24 @@ Print Assumptions C08_source_get_path_step.
 Theorem C08_source_research : forall q reraise lg, research_fold q reraise lg = reported_x q reraise lg.
 Proof. exact source_research. Qed.
 Print Assumptions C08_source_research.
+
+(* ---- chains of any depth (the closed form Check.deep_ok evaluates for very deep inputs) ---- *)
+Theorem C08_deep_rebuild : forall v f, leafwise v f ->
+  forall ks leaf p, Forall (fun k => is_set k = false) ks ->
+    rebuild v p (chain ks leaf) = match ks with [] => VLeaf leaf | _ => chain ks (new_leaf f leaf) end.
+Proof. exact deep_rebuild. Qed.
+Print Assumptions C08_deep_rebuild.
+
+(* the stack machine on a chain of ANY depth returns the chain (leaf as the visit
+   left it): it needs iterations (<= 2*size+1, C08_terminates), never recursion
+   depth - RecursionError is not an outcome the model can exhibit *)
+Theorem C08_deep_machine : forall (visit : option visit_fn) f reraise defs k ks leaf,
+  leafwise (vfun visit) f -> Forall (fun k => is_set k = false) (k :: ks) ->
+  exists v m lg,
+    remap (lift visit) reraise defs (inject (chain (k :: ks) leaf)) = Done v m lg
+    /\ erase v = chain (k :: ks) (new_leaf f leaf).
+Proof. exact deep_machine. Qed.
+Print Assumptions C08_deep_machine.
+
+Example C08_deep_inhabited : leafwise (vfun None) (fun _ => None).
+Proof. exact keep_leafwise. Qed.
